@@ -95,8 +95,16 @@ func c01f(c *Ctx) {
 					c.Check(ws.argT[0] == s.script, key+"/goto-prefix", c.W.Pos(ws.call.Pos()), "goto label is <script>_<dest>", "goto label prefix is "+ws.argT[0]+", expected the script name parameter")
 					gotoD = append(gotoD, blk)
 				}
-			case len(ws.argT) == 0 && (ws.format == "\treturn\n" || ws.format == "\tend\n"):
+			case len(ws.argT) == 0 && ws.format == "\treturn\n":
 				termD = append(termD, blk)
+			case len(ws.argT) == 0 && ws.format == "\tend\n" && !strings.Contains(s.fn, "renderBranchConditions"):
+				termD = append(termD, blk) // the chunk's own end/return command (C01.g)
+			case len(ws.argT) == 0 && ws.format == "\tend\n":
+				// running off the end of a branch leaves the script the way running off the end of
+				// its body does: with 'return' (a script entered by 'call' goes back to its caller);
+				// 'end' is only ever written for an 'end' command the author wrote (C01.g)
+				termD = append(termD, blk)
+				c.Bad(key+"/terminator-word", c.W.Pos(ws.call.Pos()), "the branch renderer leaves the script with 'end': a destination of 'leave' is the implicit end of the script body, which is 'return' (a script that was entered by call must go back to its caller)")
 			case ws.isFmt && ws.format == "\t%s\n" && len(ws.argT) == 1 && strings.Contains(ws.argT[0], "getTerminatorCommand"):
 				termD = append(termD, blk)
 			}
